@@ -2,6 +2,7 @@ pub mod c01;
 pub mod c02;
 pub mod c03;
 pub mod c04;
+pub mod c05;
 pub mod c06;
 pub mod c07;
 pub mod c08;
@@ -20,6 +21,7 @@ pub fn registry() -> Vec<Box<dyn Prop>> {
         Box::new(c02::C02),
         Box::new(c03::C03),
         Box::new(c04::C04),
+        Box::new(c05::C05),
         Box::new(c06::C06),
         Box::new(c07::C07),
         Box::new(c08::C08),
